@@ -5,7 +5,7 @@ TLC (RepoTrace.tla)."""
 import json, os, re
 from .common import CheckError, read_ndjson, load_json, write_ndjson, NCPU
 
-SHAPES = {"chain": "Chain", "star": "Star", "two": "Two", "deep": "Deep"}
+SHAPES = {"chain": "Chain", "star": "Star", "two": "Two", "deep": "Deep", "inherit": "Inherit"}
 ENTS = {"deep": '{"r", "s", "m", "l"}'}          # the other shapes have the three entities r, s, l
 
 # which clause of RepoTrace.tla belongs to which property
@@ -29,6 +29,8 @@ def model_check(ctx, shape, max_env, flagsets="CoreFlagSets", env="AllEnv", faul
     d = ctx.spec_dir()
     inv = invariants or ["TypeInv", "KeyImpliesCert", "ConvergedAfterDefault", "Idempotent", "DefaultRunCompletes", "NoRefreshWithoutHash"]
     props = properties if properties is not None else ["KeysKept", "WriteErrIsFailure", "ChainOnRun"]
+    if shape == "inherit":
+        profile = "InheritProfile\n  Inherits <- InheritEnts\n  ProfContents <- ThreeValues"
     alt = alt or ("%sAlt" % SHAPES[shape] if env in ("IssuerEnv", "FullEnv", "ConfigEnv", "EverythingEnv") else "NoAlt")
     name = "MCRepo_%s_%d_%s_%s.cfg" % (shape, max_env, flagsets, env)
     with open(os.path.join(d, name), "w") as f:
